@@ -166,8 +166,8 @@ Proof. unfold demand_okb, demand_ok. rewrite demand_scan_iff. simpl. reflexivity
 
 (* ---------- no read-ahead: whatever is pulled is looked at before anything more is pulled ---------- *)
 (* For a variable over objects that the query uses only through attributes: every element pulled out of its generator
-   has one of its attributes read before the next element is pulled, before the generator is finished and before the
-   log ends.  (An evaluator that pre-fetches, or drains a partly cached domain before handing out its first value, fails.) *)
+   has one of its attributes read, or is handed out in a result row, before the next element is pulled, before the
+   generator is finished and before the log ends.  (An evaluator that pre-fetches, or drains a partly cached domain before handing out its first value, fails.) *)
 Definition obj_of (D : domains) (x : var) (i : nat) : option Z :=
   match nth_error (D x) i with Some (VO o) => Some o | _ => None end.
 Fixpoint examined_scan (D : domains) (x : var) (pend : option Z) (t : list event) : bool :=
@@ -184,7 +184,12 @@ Fixpoint examined_scan (D : domains) (x : var) (pend : option Z) (t : list event
       | Some p => if Z.eqb o p then examined_scan D x None t' else examined_scan D x pend t'
       | None => examined_scan D x None t'
       end
-  | Yield _ :: t' => examined_scan D x pend t'
+  | Yield r :: t' =>
+      match pend with
+      | Some p => if existsb (fun v => match v with VO o => Z.eqb o p | _ => false end) r
+                  then examined_scan D x None t' else examined_scan D x pend t'
+      | None => examined_scan D x None t'
+      end
   end.
 (* x occurs in the condition, never bare (always below an attribute), and ranges over objects *)
 Definition bare (x : var) (e : opnd) : bool := match e with OVar y => Nat.eqb x y | _ => false end.
@@ -205,19 +210,8 @@ Fixpoint no_bare (x : var) (c : cond) : bool :=
   | CExists e c => negb (bare x e) && no_bare x c
   | CForAll y c => (negb (Nat.eqb x y) || leftmost_reads x c) && no_bare x c
   end.
-Definition attr_only (D : domains) (q : query) (x : var) : bool :=
-  match q_cond q with
-  | Some c => nmem x (cond_vars c) && no_bare x c && forallb (fun v => match v with VO _ => true | _ => false end) (D x)
-  | None => false
-  end.
-Definition examined_okb (D : domains) (qs : list query) (xs : list var) (t : list event) : bool :=
-  forallb (fun x => negb (forallb (fun q => attr_only D q x || negb (nmem x (query_vars q))) qs
-                           && existsb (fun q => attr_only D q x) qs)
-                    || examined_scan D x None t) xs.
-
-(* ---------- the fragment F10 (decidable, syntactic) ---------- *)
+(* variables certainly bound in every result of the given truth (true: the condition holds); conservative *)
 Definition inter (l m : list var) : list var := filter (fun x => nmem x m) l.
-(* variables certainly bound in every result of the given truth (true: the condition holds) *)
 Fixpoint must (c : cond) (truth : bool) : list var :=
   match c with
   | CCmp _ l r => opnd_vars l ++ opnd_vars r
@@ -226,6 +220,22 @@ Fixpoint must (c : cond) (truth : bool) : list var :=
   | CNot c => must c (negb truth)
   | CUnion _ _ | CExists _ _ | CForAll _ _ => []
   end.
+(* x ranges over objects, occurs in the condition only below attributes, and is not enumerated by the selection itself
+   (either it is not selected bare, or every true result of the condition binds it): a nested loop over a selected
+   variable may pull elements that no row shows when an inner selected domain is empty *)
+Definition attr_only (D : domains) (q : query) (x : var) : bool :=
+  match q_cond q with
+  | Some c => nmem x (cond_vars c) && no_bare x c
+              && (negb (existsb (bare x) (q_sels q)) || nmem x (must c true))
+              && forallb (fun v => match v with VO _ => true | _ => false end) (D x)
+  | None => false
+  end.
+Definition examined_okb (D : domains) (qs : list query) (xs : list var) (t : list event) : bool :=
+  forallb (fun x => negb (forallb (fun q => attr_only D q x || negb (nmem x (query_vars q))) qs
+                           && existsb (fun q => attr_only D q x) qs)
+                    || examined_scan D x None t) xs.
+
+(* ---------- the fragment F10 (decidable, syntactic) ---------- *)
 Fixpoint union_free (c : cond) : bool :=
   match c with
   | CCmp _ _ _ => true
@@ -233,13 +243,11 @@ Fixpoint union_free (c : cond) : bool :=
   | CNot c => union_free c
   | CUnion _ _ | CExists _ _ | CForAll _ _ => false
   end.
-(* quantifier-free, no or_ over different variable sets (Union: a second pass over the right operand), and every selected
-   variable is bound by every true result of the condition (otherwise itertools.product drains its domain) *)
+(* quantifier-free and no or_ over different variable sets (Union makes a second pass over the right operand, which the
+   single-pass reference enumerator does not).  Since 32abf51 the selected expressions are enumerated lazily, so the
+   selection needs no side condition any more (before: every selected variable had to be bound by the condition). *)
 Definition f10 (q : query) : bool :=
-  match q_cond q with
-  | Some c => union_free c && nsubset (flat_map opnd_vars (q_sels q)) (must c true)
-  | None => nsubset (flat_map opnd_vars (q_sels q)) []
-  end.
+  match q_cond q with Some c => union_free c | None => true end.
 
 (* ---------- printing for the correspondence check ---------- *)
 Definition show_event (e : event) : sx :=
